@@ -2,26 +2,24 @@
    on character lists (the C08 list-level definitions of [string.view.find] / [string.ops], which
    std::basic_string shares with std::basic_string_view).  [needle_chars] etc. say which characters an
    argument denotes; nothing here mentions how the library forwards its arguments. *)
-From Tetl Require Import Lib.Base C08.Model C08.Spec C08.Core C08.ProofsCmp C08.ProofsFind C08.ProofsPtr C04.Model C04.ModelQ.
+From Tetl Require Import Lib.Base C08.Model C08.Spec C04.Model C04.ModelQ.
 Local Open Scope Z_scope.
+
+(* the characters a view spans (the same definition as C08.Core.vchars, repeated here so that the
+   specification does not depend on a proof file) *)
+Definition view_chars (v : view) : list Z :=
+  firstn (Z.to_nat (vlen v)) (skipn (Z.to_nat (voff v)) (vbuf v)).
 
 Definition needle_chars (n : needle) : list Z :=
   match n with
-  | NStr v => vchars v
-  | NPtrCount a count => sub (vchars a) 0 count
-  | NCstr a => cstr_s (vchars a)
+  | NStr v => view_chars v
+  | NPtrCount a count => sub (view_chars a) 0 count
+  | NCstr a => cstr_s (view_chars a)
   | NChar c => [c]
   end.
 
 (* the argument is usable: views lie inside their arrays, (s, count) stays inside the array s points
    into, a C string pointer points into an array that holds a null character *)
-Definition needle_ok (n : needle) : Prop :=
-  match n with
-  | NStr v => view_ok v
-  | NPtrCount a count => view_ok a /\ 0 <= count <= vlen a
-  | NCstr a => cstr_ok a
-  | NChar _ => True
-  end.
 
 Definition search_s (f : fam) (h n : list Z) (pos : Z) : Z :=
   match f with
@@ -39,36 +37,16 @@ Definition std_default_pos (f : fam) : Z :=
 
 Definition compare_call_s (t : chartype) (l : list Z) (c : cmp_call) : option Z :=
   match c with
-  | CmpStr b => Some (compare_s t l (vchars b))
-  | CmpPosStr pos count b => compare3_s t l pos count (vchars b)
-  | CmpPos5Str pos1 count1 b pos2 count2 => compare5_s t l pos1 count1 (vchars b) pos2 count2
-  | CmpCstr a => Some (compare_s t l (cstr_s (vchars a)))
-  | CmpPosCstr pos count a => compare3_s t l pos count (cstr_s (vchars a))
-  | CmpPosPtrCount pos1 count1 a count2 => compare3_s t l pos1 count1 (sub (vchars a) 0 count2)
-  | CmpPosView pos1 count1 v => compare3_s t l pos1 count1 (vchars v)
-  | CmpPos5View pos1 count1 v pos2 count2 => compare5_s t l pos1 count1 (vchars v) pos2 count2
+  | CmpStr b => Some (compare_s t l (view_chars b))
+  | CmpPosStr pos count b => compare3_s t l pos count (view_chars b)
+  | CmpPos5Str pos1 count1 b pos2 count2 => compare5_s t l pos1 count1 (view_chars b) pos2 count2
+  | CmpCstr a => Some (compare_s t l (cstr_s (view_chars a)))
+  | CmpPosCstr pos count a => compare3_s t l pos count (cstr_s (view_chars a))
+  | CmpPosPtrCount pos1 count1 a count2 => compare3_s t l pos1 count1 (sub (view_chars a) 0 count2)
+  | CmpPosView pos1 count1 v => compare3_s t l pos1 count1 (view_chars v)
+  | CmpPos5View pos1 count1 v pos2 count2 => compare5_s t l pos1 count1 (view_chars v) pos2 count2
   end.
 
-Definition cmp_call_ok (c : cmp_call) : Prop :=
-  match c with
-  | CmpStr b => view_ok b
-  | CmpPosStr pos count b => view_ok b /\ pos_ok pos /\ pos_ok count
-  | CmpPos5Str pos1 count1 b pos2 count2 => view_ok b /\ pos_ok pos1 /\ pos_ok count1 /\ pos_ok pos2 /\ pos_ok count2
-  | CmpCstr a => cstr_ok a
-  | CmpPosCstr pos count a => cstr_ok a /\ pos_ok pos /\ pos_ok count
-  | CmpPosPtrCount pos1 count1 a count2 => view_ok a /\ pos_ok pos1 /\ pos_ok count1 /\ 0 <= count2 <= vlen a
-  | CmpPosView pos1 count1 v => view_ok v /\ pos_ok pos1 /\ pos_ok count1
-  | CmpPos5View pos1 count1 v pos2 count2 => view_ok v /\ pos_ok pos1 /\ pos_ok count1 /\ pos_ok pos2 /\ pos_ok count2
-  end.
 
 Definition pfx_chars (p : pfx_arg) : list Z :=
-  match p with PView v => vchars v | PChar c => [c] | PCstr a => cstr_s (vchars a) end.
-(* for starts_with / ends_with the characters must be values of the character type *)
-Definition pfx_ok (t : chartype) (p : pfx_arg) : Prop :=
-  match p with
-  | PView v => view_ok v /\ chars_ok t (vchars v)
-  | PChar _ => True
-  | PCstr a => cstr_ok a /\ chars_ok t (vchars a)
-  end.
-Definition pfx_ok' (p : pfx_arg) : Prop :=
-  match p with PView v => view_ok v | PChar _ => True | PCstr a => cstr_ok a end.
+  match p with PView v => view_chars v | PChar c => [c] | PCstr a => cstr_s (view_chars a) end.
